@@ -205,6 +205,20 @@ def sortedObjs (w : World ByteArray) : List (Digest × Obj ByteArray) :=
 
 def isBlob : Obj ByteArray → Bool | .blob _ => true | _ => false
 
+/-- choose an object of the cache: `<k>` the k-th (sorted, modulo) among `cands`; `m<k>` the k-th manifest;
+`p<hexpath>` the object holding the content of the workspace file at that path -/
+def pickObj (w : World ByteArray) (sel : String) (blobsOnly : Bool) : Option Digest :=
+  if sel.startsWith "p" then
+    match getPath w.ws (Path.comps (unhex (sel.drop 1).toString)) with
+    | some (.link (.obj d)) => if w.store.has d then some d else none
+    | some (.file c) => let d := H c; if w.store.has d then some d else none
+    | _ => none
+  else
+    let onlyMan := sel.startsWith "m"
+    let n := if onlyMan then (sel.drop 1).toString else sel
+    let objs := (sortedObjs w).filter fun (_, o) => (if onlyMan then !isBlob o else (!blobsOnly || isBlob o))
+    (objs[n.toNat! % (max objs.length 1)]?).map (·.1)
+
 /-- rewrite the manifests in the old schema, bottom-up; `sel = none`: all of them, `some cs`: those whose
 (original) digest starts with one of the characters `cs` — the others keep their schema and are only
 re-keyed when one of their children was. Returns the digest renaming. -/
@@ -365,17 +379,21 @@ def applyOp (toks : List String) (w : World ByteArray) : Except Err (World ByteA
         | some ws => (.ok { w with ws := ws }, #[s!"x {d}"]) | none => (.error .other, #[]))
      | none => (.error .other, #[]))
   | ["corrupt", n, c] =>
-    let blobs := (sortedObjs w).filter (fun p => isBlob p.2)
-    (match blobs[n.toNat! % (max blobs.length 1)]? with
-     | some (d, _) => (.ok { w with store := w.store.put d (.blob (parseContent c)) }, #[s!"x {d}"])
+    -- replace the bytes of an object (`<k>`: k-th file object, `m<k>`: k-th manifest, `p<path>`: the object of that file)
+    (match pickObj w n true with
+     | some d => (.ok { w with store := w.store.put d (.blob (parseContent c)) }, #[s!"x {d}"])
      | none => (.error .other, #[]))
   | ["rmobj", n] =>
-    -- `m<k>`: the k-th manifest object; `<k>`: the k-th object of any kind
-    let onlyMan := n.startsWith "m"
-    let n := if onlyMan then (n.drop 1).toString else n
-    let objs := (sortedObjs w).filter fun (_, o) => !onlyMan || !isBlob o
-    (match objs[n.toNat! % (max objs.length 1)]? with
-     | some (d, _) => (.ok { w with store := w.store.filter (·.1 != d) }, #[s!"x {d}"])
+    (match pickObj w n false with
+     | some d => (.ok { w with store := w.store.filter (·.1 != d) }, #[s!"x {d}"])
+     | none => (.error .other, #[]))
+  | ["mv", src, dst] =>
+    -- rename a workspace entry as it is (a link stays a link)
+    let cs := Path.comps (unhex src)
+    let cd := Path.comps (unhex dst)
+    (match getPath w.ws cs with
+     | some n => (match setPath (delPath w.ws cs) cd n with
+        | some ws => (.ok { w with ws := ws }, #[]) | none => (.error .other, #[]))
      | none => (.error .other, #[]))
   | ["setcmd", sp, cmd] =>
     (match alookup w.idx (unhex sp) with
